@@ -88,7 +88,7 @@ class StopSession(BaseException):
     """The consumer gives up on the current interaction (like killing the fuzzer)."""
 
 
-FAULTS = ["constraint_violation", "wrong_type", "garbage", "truncated", "silence", "stall_long", "unsolicited"]
+FAULTS = ["constraint_violation", "wrong_type", "wrong_party", "garbage", "truncated", "silence", "stall_long", "unsolicited"]
 
 
 class Session:
@@ -262,7 +262,7 @@ class ProtoSimulation:
     def peer_poll(self, sess: Session):
         if sess is not self.session or not sess.active or sess.ended:
             return
-        if sess.fault is not None and sess.fault[0] in ("truncated", "silence", "garbage", "wrong_type", "constraint_violation"):
+        if sess.fault is not None and sess.fault[0] in ("truncated", "silence", "garbage", "wrong_type", "constraint_violation", "wrong_party"):
             return
         viable, st = self.auto.run(sess.sim_history)
         if not viable:
@@ -290,7 +290,15 @@ class ProtoSimulation:
             fld = self.p.msg_types[mtype]["field"]
             if fld in self.p.field_constraints or any(fld in ab for ab in self.p.eq_constraints):
                 kinds += ["constraint_violation", "constraint_violation"]
+            # a party that is not expected to speak now (e.g. the request went to another party)
+            # sends one of its own, well-formed messages
+            speakers = {k[0] for k in nxt}
+            strangers = [o for o in P.occurrences(self.p) if o[0] in self.p.externals and o[1] in self.p.fuzzers and o[0] not in speakers and o[0] not in sess.silent and not sess.in_flight.get(o[0])]
+            if strangers:
+                kinds += ["wrong_party", "wrong_party"]
             behaviour = self.ch.pick(kinds, "fault", "fault-kind")
+            if behaviour == "wrong_party":
+                sender, recipient, mtype = self.ch.pick(strangers, "fault", "wrong-party")
         self.emit(sess, sender, recipient, mtype, behaviour, st)
 
     def emit(self, sess: Session, sender, recipient, mtype, behaviour, st):
@@ -311,12 +319,20 @@ class ProtoSimulation:
         elif behaviour == "wrong_type":
             allowed = {k[2] for k in self.auto.next_set(st) if k[0] == sender}
             others = sorted(t for t, m in self.p.msg_types.items() if t not in allowed)
+            ov = self.p.meta.get("overlap")
+            if ov and ov[0] in allowed:
+                # the longer type's text starts with a complete, allowed message of the shorter type:
+                # on a byte stream that is "a valid message followed by garbage", not a wrong type
+                others = [t for t in others if t != ov[1]]
             if not others:
                 behaviour = "garbage"
             else:
                 mtype = ch.pick(others, "fault", "wrong-type")
                 text, _model, _ok = P.sample_msg(self.p, ch, mtype, True)
                 valid = False
+        elif behaviour == "wrong_party":
+            text, _model, _ok = P.sample_msg(self.p, ch, mtype, True)
+            valid = False
         if behaviour == "garbage":
             text = ch.pick(["XYZZY\n", "\n", "??", "HELO", "0", "ACK ACK\n", "é\n"], "fault", "garbage")
             if any(text == t for t in self._all_valid_texts_guess(text)):
@@ -324,10 +340,20 @@ class ProtoSimulation:
             valid = False
         elif behaviour == "truncated":
             full, _model, _ok = P.sample_msg(self.p, ch, mtype, True)
-            cut = 1 + ch.draw(max(1, len(full) - 1), "fault", "trunc-at")
+            limit = len(full)
+            ov = self.p.meta.get("overlap")
+            if ov and mtype == ov[1]:
+                # cut inside the part shared with the shorter type: anything longer is, on a byte
+                # stream, a complete valid message of the shorter type followed by garbage
+                limit = len(self.p.msg_types[mtype]["kw"]) + 1
+            cut = 1 + ch.draw(max(1, limit - 1), "fault", "trunc-at")
             text = full[:cut]
             if text == full:
                 text = full[:-1]
+            # never cut right behind a terminator: with prefix-overlapping types the cut text could
+            # be a complete message of the shorter type
+            while len(text) > 1 and text[-1] in "\n;":
+                text = text[:-1]
             valid = False
         elif behaviour == "silence":
             sess.fault = ("silence", sender, len(em))
@@ -373,6 +399,7 @@ class ProtoSimulation:
                 if behaviour != "valid" and self.fault_mode and ch.coin(0.1, "fault", "slow-fragment"):
                     d = ch.pick([1.3, 2.5], "fault", "slow-fragment-d")
                     self.run.fault("slow_fragment")
+                    rec["slow"] = True  # a gap above the product's 1 s completion wait inside this message
                     if sess.fault is None:
                         sess.fault = ("slow_fragment", sender, len(em) - 1)
                 t += d
@@ -439,6 +466,10 @@ class ProtoSimulation:
                 continue
             for i, (t, text, rcp) in enumerate(in_tree):
                 rec = em[i]
+                if (rec.get("cut") or rec.get("slow")) and rec["text"].startswith(text):
+                    # a transport fault cut this message, or a fragment gap above the completion wait
+                    # split it: what had arrived by then is a complete message of a shorter type
+                    break
                 if rec["text"] != text or rec["type"] != t:
                     run.violation("C20", "receive-conservation", "remote-message-differs", "message %d of %s in the tree is <%s> %r but the peer emitted <%s> %r\n%s" % (i, e, t, text, rec["type"], rec["text"], self.text))
                     break
@@ -689,6 +720,8 @@ def run(run: Run) -> None:
     proto = P.gen_protocol(ch, cfg.get("proto", {}))
     text = proto.to_fan()
     run.event("spec", text)
+    if all(n in proto.msg_types for n in proto.meta.get("overlap", ("-",))):
+        run.probe("spec_with_prefix_overlapping_types")
     random.seed(ch.product_seed())
     sim = ProtoSimulation(run, proto, text, cfg)
     bridge.SIM = sim
